@@ -342,7 +342,9 @@ func runC16(c *Ctx) {
 				},
 				Bool: map[string]bool{"CERR": hasErr},
 			}
-			e := &PPA{Cond: at.Cond, Watch: func(ev *Ev) bool { return isReadyRecv(ev) || ev.Label == "call:"+fnName(done) }}
+			e := &PPA{Cond: at.Cond, Watch: func(ev *Ev) bool {
+				return isReadyRecv(ev) || ev.Label == "call:"+fnName(done) || ev.Label == "call:"+fnName(remove) || strings.HasPrefix(ev.Label, "call:dyn:") || ev.Label == "store:connection.connection.ref"
+			}}
 			e.Run(Conn)
 			c.Paths += len(e.Paths)
 			c.Scen++
@@ -364,6 +366,16 @@ func runC16(c *Ctx) {
 					}
 					ok := r0 == "nil" && empty && loadOfField(p.Rets[2].V, fErr)
 					c.Check(ok, "C16.fail", fnName(Conn), "failed request: (nil, no-op release, c.err)", P.Pos(Conn.Pos()), fmt.Sprintf("returns (%s, %s, %s), release body empty=%v", r0, r1, r2, empty))
+					// dial's failure arm has already forgotten the entry: a waiter that "gives back" its usage
+					// (done / remove / ref) on this path would act, by address, on whatever entry exists by then
+					ri := p.Index(0, isReadyRecv)
+					after := false
+					for j := ri + 1; j < len(p.Trace); j++ {
+						if p.Trace[j].Label == "call:"+fnName(done) || p.Trace[j].Label == "call:"+fnName(remove) || strings.HasPrefix(p.Trace[j].Label, "call:dyn:") || p.Trace[j].Label == "store:connection.connection.ref" {
+							after = true
+						}
+					}
+					c.Check(!after, "C16.fail", fnName(Conn), "failed request: nothing is released or un-counted after the wait", P.Pos(Conn.Pos()), "path: "+p.String())
 				} else {
 					ok := loadOfField(p.Rets[0].V, fC) && r1 == "call:"+fnName(done) && r2 == "nil"
 					c.Check(ok, "C16.fail", fnName(Conn), "successful request: (c.c, c.done(m), nil)", P.Pos(Conn.Pos()), fmt.Sprintf("returns (%s, %s, %s)", r0, r1, r2))
